@@ -72,9 +72,13 @@ Fixpoint parse_final (p : list stmt) : option (list fstep) :=
   | _ => None
   end.
 
+(* a header that is given the count needs an item loop that counts *)
+Definition sets_hdr (fs : list fstep) : bool :=
+  existsb (fun f => match f with FDo PSetHdr => true | _ => false end) fs.
+
 Definition mk_consumer (cf : bool) (ib fin : list stmt) : option consumer :=
   match parse_item ib, parse_final fin with
-  | Some (f, d, c), Some fs => Some (mkK cf f d c fs)
+  | Some (f, d, c), Some fs => if sets_hdr fs && negb c then None else Some (mkK cf f d c fs)
   | _, _ => None
   end.
 
